@@ -438,7 +438,7 @@ def model_hooks(index, models, ci, summ=None):
     out = []
     for v in models.validators(ci):
         try:
-            s = summ.of_func(v.owner.module.name, f"{v.owner.name}.{v.name}")
+            s = summ.of_node(v.owner.module, v.node, f"{v.owner.qual}.{v.name}", v.owner)
         except Exception:  # noqa: BLE001
             out.append([v.owner.name, v.kind + "-validator", v.mode, *v.fields, "?"])
             continue
@@ -782,6 +782,10 @@ KNOWN_QUIET_HANDLERS = {
 }
 
 
+# (exception, guarded callable) of the handlers above: they stay quiet by design wherever a refactor moves them
+KNOWN_QUIET_CALLS = {("SoundFileError", "info"), ("SoundFileError", "SoundFile"), ("ValueError", "tag_fn"), ("ImportError", "geometry_to_html")}
+
+
 def _scope_modules(ctx: Ctx, files: List[str]):
     rel = set(files)
     for sm_ in list(ctx.summ._cache.values()):
@@ -886,6 +890,10 @@ def _effects_of(ctx, m):
                     if any((m.relpath, fn.name, nm) in KNOWN_QUIET_HANDLERS for nm in names):
                         continue
                     calls = [x for b in t.body for x in ast.walk(b) if isinstance(x, ast.Call)]
+                    # the same quiet-by-design handler after a move: same exception around the same guarded call
+                    if any(nm.split(".")[-1] == q_exc.split(".")[-1] and any(ast.unparse(c_.func).split(".")[-1] == q_call for c_ in calls)
+                           for nm in names for q_exc, q_call in KNOWN_QUIET_CALLS):
+                        continue
                     ctx.bad("G.7", m.relpath, fn.name, f"except {', '.join(names)}: (no raise)",
                             f"{fn.name} catches {', '.join(names)} around `{ast.unparse(calls[0])[:60] if calls else ast.unparse(t.body[0])[:60]}` and carries on "
                             f"without raising: a failure that used to reach the caller (a rejected value, a refused seek, a validation error) "
